@@ -49,6 +49,57 @@ def is_sentinel_operand(fn, node):
     return sentinel_polarity(p, True) is not None and sentinel_polarity(p, True)[0] == txt(strip(node))
 
 
+def child_rule(chk, db, rule_id):
+    """the level that is compared with the limit is the level of the child that is appended"""
+    from tsg.flow import relation
+    from tsg.typestate import must_pass_before
+    chk.rule(rule_id, "in the routines that append the children of a refined point under level limits (addChildLimited of the Local Polynomial and Wavelet grids), every appended child index "
+                      "is guarded, on the path of that append, by a comparison of the level of that same index with the limit of the direction (or the limit being the -1 sentinel): "
+                      "a test of a sibling's level, or a test hoisted out of the path, does not bound the child that is stored")
+    n = 0
+    for cls in ("TasGrid::GridLocalPolynomial", "TasGrid::GridWavelet"):
+        for f in db.fns(cls + "::addChildLimited"):
+            if not f.body:
+                continue
+            for c in f.calls():
+                if not (callee(c) or "").endswith("::appendStrip") or not is_reachable(f, c):
+                    continue
+                kid = strip(call_args(c)[-1])
+                if kid is None or kid.get("k") != "DeclRefExpr":
+                    continue
+                # the last value stored into kid[direction] before this append
+                stores = [q for q in f.walk() if q.get("k") == "BinaryOperator" and q.get("op") == "=" and strip(q["c"][0]) is not None and strip(q["c"][0]).get("k") in ("ArraySubscriptExpr", "CXXOperatorCallExpr")
+                          and any(z.get("k") == "DeclRefExpr" and z.get("did") == kid.get("did") for z in walk(q["c"][0])) and q.get("l", 0) <= c.get("l", 0)]
+                if not stores:
+                    continue
+                st = max(stores, key=lambda q: (q.get("l", 0), q.get("id", 0)))
+                val = strip(st["c"][1])
+                lhs_txt = txt(strip(st["c"][0]))
+                n += 1
+                chk.saw(f)
+                ok = False
+                for cnd, truth in cond_edges_dominating(f, c):
+                    if not truth:
+                        continue
+                    parts = [strip(cnd)]
+                    if parts[0] is not None and parts[0].get("k") == "BinaryOperator" and parts[0].get("op") == "||":
+                        parts = [strip(parts[0]["c"][0]), strip(parts[0]["c"][1])]
+                    for pt in parts:
+                        r = relation(pt) if pt is not None else None
+                        if r is None or r[1] not in ("<=", "<"):
+                            continue
+                        lv = strip(r[0])
+                        if lv is None or lv.get("k") not in ("CallExpr", "CXXMemberCallExpr") or (callee(lv) or "").rsplit("::", 1)[-1] != "getLevel" or "limits" not in txt(strip(r[2])):
+                            continue
+                        arg = strip(call_args(lv)[0])
+                        same = arg is not None and (txt(arg) == lhs_txt or (val is not None and val.get("k") == "DeclRefExpr" and arg.get("k") == "DeclRefExpr" and arg.get("did") == val.get("did")))
+                        if same:
+                            ok = True
+                chk.ob(rule_id, f.key + f.sig, "child `%s` appended @%d" % (txt(val)[:30] if val is not None else "?", c.get("l", 0)), ok, f.loc(c),
+                       "" if ok else "no comparison of the level of this index with the limit lies on the path of the append", "getLevel(child) <= limit of the direction, or limit == -1")
+    return n
+
+
 def run(chk):
     db = DB("serial")
     db.load_all()
@@ -408,7 +459,26 @@ def run(chk):
                    "every exit condition reads only %s" % sorted(set().union(*[reads(c) for c in conds if c is not None])) if not indep else "exit that consults the limits: %s" % indep,
                    "an exit that triggers when the limits are saturated")
     chk.floor("C08-D5.saturation", nloops, 3, "grow-until-min_growth loops")
+    # the saturation test looks at the sets that live in level space: the tensors where a class has them (point indexes of a Fourier / Global grid are not levels), the points of a Sequence grid
+    nsat = 0
+    for fn in allfns:
+        if fn.d.get("islambda") or not (fn.cls or "").startswith("TasGrid::Grid"):
+            continue
+        for c in fn.calls():
+            if not (callee(c) or "").endswith("::isLimitSaturated") or not is_reachable(fn, c):
+                continue
+            nsat += 1
+            rec = db.record(fn.cls)
+            has_tensors = any(fl["name"] == "tensors" for fl in rec["fields"])
+            got = tuple((strip(a) or {}).get("field", "").rsplit("::", 1)[-1] for a in call_args(c)[:2])
+            want = ("tensors", "updated_tensors") if has_tensors else ("points", "needed")
+            chk.ob("C08-D5.saturation", fn.key, "isLimitSaturated(%s, %s, ...)" % got, got == want, fn.loc(c),
+                   "" if got == want else "the limits bound levels; this class keeps its levels in %s / %s, the sets passed hold %s" % (want[0], want[1], "point indexes" if has_tensors else "something else"),
+                   "isLimitSaturated(%s, %s, limits)" % want)
+    chk.floor("C08-D5.saturation", nsat, 3, "saturation tests of the anisotropic refinement loops")
 
+    nch = child_rule(chk, db, "C08-D7.child")
+    chk.floor("C08-D7.child", nch, 7, "appends of a child index under level limits")
     return ("Static rule discharge. The positions of limits parameters are not listed by hand: they are inferred by inter-procedural flow of the member "
             "TasmanianSparseGrid::llimits over resolved call sites (through make_unique, constructors, virtual dispatch to the five grid classes, lambdas by capture). "
             "D1 checks storing/forwarding at the API layer and threading/variant selection below it; D2 checks the -1 sentinel guard by branch-edge dominance on the same "
